@@ -65,6 +65,9 @@ def gen_plain(rng, names, wild=False):
         return [["Undef", rng.choice(FLAGS + VALS)]]
     if r < 0.67:
         return [["Other"]]
+    if r < 0.71:
+        # computed include of a macro that only some commands define (-DH0=...)
+        return [["If", ["Defd", "H0"]], ["Inc", ["M", "H0"]], ["Endif"]]
     if names:
         n = rng.choice(names)
         rr = rng.random()
@@ -158,6 +161,8 @@ def gen_entry(rng, mains, names, prefix=(), outside=None):
     for m in VALS:
         if rng.random() < 0.4:
             defs.append([m, rng.choice([0, 1, 2])])
+    if rng.random() < 0.2:
+        defs.append(["H0", ["P", rng.random() < 0.5, rng.choice(names)]])
     incs = [rng.choice(names) for _ in range(rng.choice([0, 0, 0, 1, 1, 2]))]
     return [main, dirs, defs, incs]
 
